@@ -354,12 +354,17 @@ func Concretize(e *Edge, n int) Concrete {
 			line("!!!not-base64!!!")
 		}
 	case "STARTTLS":
-		if c.A == "inject" {
+		if c.A == "badhs" {
+			line("STARTTLS")
+			if len(e.Lbl.Replies) > 0 && e.Lbl.Replies[0].Code == 220 {
+				k.Phases = append(k.Phases, []byte("HELLO")) // five octets that are no TLS record header
+			}
+		} else if c.A == "inject" {
 			k.Phases = append(k.Phases, []byte("STARTTLS\r\nNOOP\r\nMAIL FROM:<injected@x.test>\r\n"))
 		} else {
 			line("STARTTLS")
 		}
-		k.Handshake = len(e.Lbl.Replies) > 0 && e.Lbl.Replies[0].Code == 220
+		k.Handshake = c.A != "badhs" && len(e.Lbl.Replies) > 0 && e.Lbl.Replies[0].Code == 220
 	default:
 		panic("unknown abstract command " + c.C)
 	}
@@ -552,7 +557,7 @@ func (cv *Conv) Exec(e *Edge) (divs []evid.Div, fatal error) {
 			// continue only after an intermediate reply
 			// (LMTP backends may answer before the message has been sent)
 			rs, _, _ := wire.ParseAll(o)
-			if len(rs) < 1 || rs[0].Code/100 != 3 {
+			if len(rs) < 1 || (rs[0].Code/100 != 3 && !(e.Lbl.Cmd.C == "STARTTLS" && rs[0].Code == 220)) {
 				break
 			}
 		}
@@ -844,6 +849,7 @@ func (cv *Conv) Exec(e *Edge) (divs []evid.Div, fatal error) {
 					switch name := d[:strings.IndexByte(d, '=')]; name {
 					case "tls":
 						props["C10"] = true
+						props["C09"] = true // what counts as a protected connection decides whether AUTH is allowed
 					case "didAuth":
 						props["C09"] = true
 					case "errCount", "lineLimit":
